@@ -143,6 +143,21 @@ Theorem C01_statement_simulation :
 Proof. intros rt mt Hb. exact (proj1 (simpleB_simulation rt mt Hb)). Qed.
 Print Assumptions C01_statement_simulation.
 
+(* the value of a built-in function (round, floor, ceil, sqrt, trigonometry, cycle, random is excluded by the reference semantics), taken
+   directly by a statement: CTX; arguments; JSR computes the value into RESULT and returns at once; END_CTX; then the value is taken *)
+From Bardolph Require Import Lang.CallValue.
+Theorem C01_value_of_a_builtin_function :
+  forall rt mt, bodies_ok rt mt -> forall u f args ps, builtin_params f builtin_table = Some ps ->
+  plain_args mt args ps = true -> use_ok u = true ->
+  forall after im ss s sig ss' fuel, routines_loaded rt mt im -> sim ss s ->
+  code_at im (m_pc s) (c_stmt rt mt false after (use_stmt u (RCall f args))) ->
+  Sem.exec rt mt fuel false ss (use_stmt u (RCall f args)) = ROk sig ss' ->
+  sig = SigNormal /\
+  exists n s' evs, esteps n im s = Some (s', evs) /\ sim ss' s' /\ m_pc s' = m_pc s + zlength (c_stmt rt mt false after (use_stmt u (RCall f args))) /\
+                   (m_stack s', fr s') = (m_stack s, fr s) /\ rev (s_trace ss') = rev (s_trace ss) ++ evs.
+Proof. exact builtin_value_simulation. Qed.
+Print Assumptions C01_value_of_a_builtin_function.
+
 Example C01_program_nonvacuous :
   let p := [SDefineRoutine "blink" ["n"; "h"]
               (SBlock [SReg R_HUE (RVar "h");
@@ -188,6 +203,7 @@ Example C01_program_nonvacuous :
             STimeAt [TPat "8:00" [([8%Z], [0%Z])]; TPat "9:3*" [([9%Z], [30%Z; 31%Z; 32%Z])]]; SSet OpAll;
             SGet (RLit (LStr "a")); SPrintln (Some (RReg R_HUE)); SSet OpDefault;
             SAssign "who" (RCall "pick" [RLit (LStr "g")]); SPrintln (Some (RVar "who"));
+            SAssign "r" (RCall "round" [RVar "total"]); SPrintln (Some (RCall "floor" [RExpr (EBin BDiv (EVar "total") (ELit (LInt 2)))]));
             SReg R_HUE (RCall "sq" [RVar "total"]); SPrint (Some (RCall "sq" [RExpr (EBin BSub (EVar "total") (ELit (LInt 7)))]));
             SPrintln (Some (RVar "total"))] in
   let w := [mkLight "a" "g" "l" KPlain [0; 0; 0; 0]; mkLight "" "g" "m" KPlain [0; 0; 0; 0]; mkLight "c" "" "l" KPlain [0; 0; 0; 0]; mkLight "b" "h" "l" KPlain [0; 0; 0; 0]] in
